@@ -196,4 +196,46 @@ PROPS = {
                      'set-order and hash dependence (sorted() with a total key is evaluated by the executor, ties are rejected)'],
         explanation='flattening clause of tex.read for chunked input, frame/purity scan over all functions with an allow-list, '
                     'deterministic iteration order in the sizing-command tokenizer; forms/seeds/isolation bounded'),
+    'C18': dict(
+        select=lambda c: c.qual.startswith('data.TexArgs.') or c.qual in ('data.TexExpr.__init__', 'data.TexCmd.__str__',
+                                                                           'data.TexEnv.__str__'),
+        level='other', bounded=['c18.py'],
+        lemmas=['M1 simulation: every TexArgs method refines the corresponding list operation on the view `items`, so every '
+                'finite history does (induction on length, not mechanised)'],
+        trusted_base=['the bookkeeping list TexArgs.all is not modelled (opaque; its lookups are assumed to find their '
+                      'argument): exceptions raised through it are covered by the bounded exploration only',
+                      'list.__init__/insert/remove/pop/reverse/clear/__getitem__ of the base class follow the language reference'],
+        assumptions=['TexArgs.__contains__ and construction from another TexArgs are not verified (bounded only)',
+                     'coercion: a string is accepted iff it is blank or delimited like a group; TexGroup.parse is executed in place'],
+        explanation='append, extend, insert (any index), remove, pop, reverse, clear, indexing, slicing, __str__ and the '
+                    'constructor are verified against list semantics on the view; a rejected string leaves the list unchanged; '
+                    'BFS against a Python list (duplicates included) is the bounded cross-check'),
+    'C05': dict(
+        select=lambda c: c.qual.startswith('data.TexExpr.') or c.qual.startswith('data.TexArgs.') or c.qual in ('data.TexCmd.__str__', 'data.TexEnv.__str__'),
+        level='other', bounded=['edits.py'],
+        lemmas=['M3 splice (DESIGN 9): replacing the content list of one node changes the serialisation of the root exactly at '
+                'that node (ser is a homomorphic fold; structural induction, not mechanised)'],
+        assumptions=['TexNode.delete/replace/replace_with/remove/insert/append (the wrappers that locate the container) are not '
+                     'under contract; they are covered by the bounded edit sweep against the reference model',
+                     'open finding D9: lookups by textual equality edit the first textual twin'],
+        explanation='list-splice contracts of TexExpr.append/insert/remove and of the TexArgs mutators; single edits on '
+                    'generated documents against a reference document model (forced twins included)'),
+    'C14': dict(
+        select=lambda c: c.qual in ('data.TexArgs.__getitem__', 'data.TexArgs.__init__', 'data.TexArgs.reverse',
+                                    'data.TexArgs.append', 'data.TexArgs.insert', 'data.TexCmd.__str__', 'data.TexEnv.__str__',
+                                    'data.TexArgs.__str__', 'data.TexExpr.__init__'),
+        level='other', bounded=['edits.py'],
+        assumptions=['the name/string/args setters of TexNode and TexExpr are plain field stores and are not separately under '
+                     'contract; "re-parsing shows the same change" needs the parser on a new string: bounded'],
+        explanation='serialisers read the current fields (both \\begin and \\end are built from the current name); slicing an '
+                    'argument list returns an argument list of the same groups; rename/re-string/re-argument on generated '
+                    'documents against the reference model incl. re-parse'),
+    'C15': dict(
+        select=lambda c: c.qual.startswith('data.TexExpr.') or c.qual.startswith('data.TexArgs.') or c.qual in ('data.TexCmd.__str__', 'data.TexEnv.__str__'),
+        level='other', bounded=['edits.py'],
+        lemmas=['M1 simulation (DESIGN 9) over the per-operation contracts'],
+        assumptions=['TexNode-level wrappers and the navigation/search views are not under contract (bounded)',
+                     'open finding D9'],
+        explanation='per-operation list contracts; histories of 2..5 edits on generated documents against the reference model '
+                    'with consistency of search, parents and text after every step'),
 }
